@@ -1010,6 +1010,21 @@ class CallsMixin:
 
     def _red(self, pos, kw, node, env, **k):
         a = pos[0] if pos else TOP()
+        fname0 = ''
+        if isinstance(node, ast.Call):
+            fname0 = getattr(node.func, 'attr', '') or \
+                getattr(node.func, 'id', '')
+        if fname0 == 'prod' and a.k == 'arr' and a.dt == 'i' and \
+                a.dims is not None and len(a.dims) == 1 and (
+                    (a.items and any(not x.has_const() for x in a.items)) or
+                    a.items is None):
+            # product of a VECTOR of sizes (not the .shape tuple of an actual
+            # array): the number of elements of a tensor kept in TT format
+            self.site('S-bigprod', node, 'violation',
+                      'a product over a vector of mode sizes is formed in '
+                      'integer arithmetic: for the high-dimensional tensors '
+                      'the TT format is made for it exceeds 2**63 and wraps '
+                      'silently (use float / logarithms, or per-core factors)')
         if a.k == 'arr' and a.items is not None and \
                 self.kwarg(pos, kw, 1, 'axis') is None:
             fname = ''
@@ -1196,6 +1211,15 @@ class CallsMixin:
             elif a.orth == 'eig':
                 r.orth = 'sing'
                 r.src = a.src
+                # eigenvalues of a Gram matrix are >= 0 only up to rounding
+                if a.nonneg:
+                    self.site('G-sqrt', node, 'ok', 'eigenvalues clamped at 0')
+                else:
+                    self.site('G-sqrt', node, 'violation',
+                              'square root of the eigenvalues of a Gram '
+                              'matrix that were not clamped at 0 first: for '
+                              'rank-deficient input the zero eigenvalues come '
+                              'out slightly negative and turn into NaN')
             r.nonneg = True
             r.nonlin = True
         elif short in ('cos', 'sin', 'arccos', 'exp', 'log', 'log2'):
